@@ -283,6 +283,25 @@ def calc_instances(ctx, rep, ruleset="GateauxDerivativeRuleset", prefix="C02", v
                 run("Conditional", cm["Conditional"](c, t_, e_), [zt, uflmodel.m_zero(vs)], "constant branches", real_only=True, sym_rule=zero_rule)
             for cls, side in (("PositiveRestricted", "+"), ("NegativeRestricted", "-")):
                 run(cls, cm[cls](f), [fp], desc)
+        # zero-derivative sweep: each operand in turn is independent of the variable and its derivative arrives as a
+        # literal Zero (the state in which the rules' shortcuts `if isinstance(dx, Zero)` are taken)
+        a_, b_ = terminal("a"), terminal("b")
+        cnd = uflmodel.m_rel("<")(terminal("p"), terminal("q"))
+        sweeps = [
+            ("Sum", lambda x, y: cm["Sum"](x, y), False),
+            ("Product", lambda x, y: cm["Product"](x, y), False),
+            ("Division", lambda x, y: cm["Division"](x, y), False),
+            ("Power", lambda x, y: cm["Power"](x, y), True),
+            ("Atan2", lambda x, y: cm["Atan2"](x, y), True),
+            ("MinValue", lambda x, y: cm["MinValue"](x, y), True),
+            ("MaxValue", lambda x, y: cm["MaxValue"](x, y), True),
+            ("Conditional", lambda x, y: cm["Conditional"](cnd, x, y), True),
+        ]
+        for tname, build, real in sweeps:
+            for z, zname in ((0, "a"), (1, "b")):
+                processed = [uflmodel.m_zero(vs) if k == z else DT(x, vs) for k, x in enumerate((a_, b_))]
+                zr = lambda name, k, zname=zname: sym.ZERO if name == zname else None  # noqa: E731
+                run(tname, build(a_, b_), processed, f"derivative of the {'first' if z == 0 else 'second'} operand is a literal Zero", real_only=real, sym_rule=zr)
         # structural rules
         A = terminal("A", (2, 3))
         Ap = DT(A, vs)
